@@ -144,3 +144,26 @@ def register_write_requests_reach_if(facts, prog, callees):
             else:
                 out[c[1]] = 'the requests it returns are dropped: they are not merged into IF (interrupt_flag)'
     return out
+
+
+def effective_stores(events):
+    """store events of a path without the no-ops: a store that writes back the value the place had on entry (for example
+    `flags |= empty()` on a path that raises nothing) and that is the first store to that place on the path"""
+    out = []
+    seen = set()
+    for e in events:
+        if e[0] != 'store':
+            continue
+        path = tuple(p[1] for p in e[2] if isinstance(p, tuple) and p and p[0] == 'f')
+        key = (e[1], path)
+        v = e[3]
+        while v is not None and v[0] == 'agg' and len(v[2]) == 1:
+            v = v[2][0]
+        name = '.'.join([str(e[1])] + [str(x) for x in path])
+        # aggregates of one field are stored through the wrapper: the entry symbol carries the inner field's name
+        noop = (v is not None and v[0] == 's' and key not in seen and
+                (v[2] == name or v[2].startswith(name + '.')) and v[2].count('.') <= name.count('.') + 1)
+        seen.add(key)
+        if not noop:
+            out.append(e)
+    return out
